@@ -45,6 +45,11 @@ def run(out, tier, seed):
                             c["input"] = inp
                         f.write(json.dumps(c, separators=(",", ":")) + "\n")
                         ncases += 1
+                        if host is H_SOME and inp in (None, IN_UNITVAL):
+                            # a host that compiles once and serves requests from working copies: the copy carries the callbacks
+                            c = dict(c, via="clone", stores="simple")
+                            f.write(json.dumps(c, separators=(",", ":")) + "\n")
+                            ncases += 1
     obs = os.path.join(wd, "obs.ndjson")
     st = vlib.run_workers("run", cases, ncases, obs, timeout=20)
     c01.decide(out, obs, ("C01", "C17"), ncases, ncases, st,
